@@ -366,6 +366,23 @@ def _sites(db, chk, m):
                    found=[ast.unparse(x) for x in inits], accepted=f"{b['src'].id} = None at the start of each call-stack traversal",
                    why="a node carried over from the previously processed thread adds a dependency between unrelated threads, possibly backward in time (cycle with zero-weight launch edges)")
         if ty == "KERNEL_KERNEL_DELAY":
+            # "previous kernel" = the kernel handled by the previous iteration for that stream: the per-stream record advances in EVERY iteration that creates a kernel span
+            # (no continue / break between the span edge and the store, the store itself not under a condition)
+            dname = ast.unparse(b["src"].value) if isinstance(b["src"], ast.Subscript) else None
+            loop = next((n_ for n_ in ast.walk(f) if isinstance(n_, ast.For) and any(x_ is c for x_ in ast.walk(n_))), None)
+            if dname is not None and loop is not None:
+                stores = [st_ for st_ in loop.body if isinstance(st_, ast.Assign) and isinstance(st_.targets[0], ast.Subscript) and ast.unparse(st_.targets[0].value) == dname]
+                spans = [st_ for st_ in loop.body for x_ in ast.walk(st_) if isinstance(x_, ast.Call) and isinstance(x_.func, ast.Attribute) and x_.func.attr == "_add_edge_helper"
+                         and "type" not in H.bind_call(helper, x_) and isinstance(st_, (ast.Assign, ast.Expr))]
+                if len(stores) == 1 and spans:
+                    i0, i1 = loop.body.index(spans[0]), loop.body.index(stores[0])
+                    jumps = [" ".join(ast.unparse(st_).split())[:100] for st_ in loop.body[i0 + 1:i1] for x_ in ast.walk(st_) if isinstance(x_, (ast.Continue, ast.Break)) and not any(
+                        isinstance(lp_, (ast.For, ast.While)) and any(x_ is y_ for y_ in ast.walk(lp_)) for lp_ in ast.walk(st_) if lp_ is not st_ or isinstance(st_, (ast.For, ast.While)))]
+                    chk.ob(rule, "kernel-to-kernel edges: the per-stream 'previous kernel' advances with every kernel whose span is created (no early exit of the iteration in between)", not jumps and i1 > i0, where,
+                           found=jumps or "store at the end of every iteration", accepted=f"{dname}[stream] = end_node reached by every iteration that adds the span edge",
+                           why="a `continue` after the span edge leaves the record at an older kernel: the next delay edge no longer joins consecutive kernels of the stream and spans the skipped kernel's run time")
+                else:
+                    chk.ob(rule, "kernel-to-kernel edges: the per-stream 'previous kernel' record is advanced once per iteration, at the top level of the loop body", None, where, found={"stores": len(stores), "span statements": len(spans)})
             keys_ok = all("@key " in s[1] and "read with key" not in s[1] for s in src) and bool(src)
             chk.ob(rule, "kernel-to-kernel edges: from the END of the previous kernel stored under the SAME stream key", keys_ok, where, found=sorted(src), accepted="last_node[stream] written and read with the row's stream",
                    why="another key joins kernels of different streams")
